@@ -4,7 +4,7 @@ H = "harness/C23_mock.py"
 
 
 def run(ctx: Ctx) -> int:
-    jobs = [Job(H, "h_same_dict_two_functions", timeout=ctx.pick(60, 200))]
+    jobs = [Job(H, "h_same_dict_two_functions", timeout=ctx.pick(60, 200)), Job(H, "h_trace_function", timeout=ctx.pick(120, 300))]
     for l1 in (0, 1):
         for l2 in (0, 1, 2):
             lv3 = (2,) if ctx.quick else (0, 1, 2)
@@ -14,8 +14,11 @@ def run(ctx: Ctx) -> int:
                 tag = f"{l1},{l2},{l3}"
                 jobs.append(Job(H, "h_restore", timeout=ctx.pick(90, 300), name=f"restore[levels={tag}]",
                                 env={"VERIF_C23_LEVELS": tag}))
-    ctx.functions_encoded = ["guppylang_internals/tracing/builtins_mock.py: mock_builtins (contextmanager, incl. finally block)"]
-    ctx.bounds = {"modules": 2, "nesting_depth": ctx.pick(2, 3), "user_bindings": "2^3 per module, symbolic",
+    ctx.functions_encoded = ["guppylang_internals/tracing/builtins_mock.py: mock_builtins (contextmanager, incl. finally block)",
+                             "guppylang_internals/tracing/function.py: trace_function up to and including the traced call (which callables' globals get mocked), driven with a stand-in builder; "
+                             "tracing/state.py: set_tracing_state"]
+    ctx.bounds = {"modules": 2, "nesting_depth": ctx.pick(2, 3), "user_bindings": "2^3 per module, symbolic (nesting conditions); 3^3 incl. a name bound to the builtin itself (same-module and trace_function conditions)",
+                  "traced callable": "plain | behind a functools.wraps decorator of the same module | of another module | both",
                   "exception": "raised at any nesting level or not at all; caught at the enclosing level or propagated through two levels"}
     ctx.outside_claim = ["traced bodies that themselves assign module globals", "sys.excepthook (exception_hook) and the tracing ContextVar are interpreter state, not the user's module"]
     ctx.assumptions = ["mock_builtins is the only code that writes to a user module's globals during tracing (grep over tracing/ and definition/traced.py)"]
